@@ -9,7 +9,7 @@ from harness.deser_run import Producer
 from harness.descr import data_real, ty_coq, value_coq, ty_src
 from harness.props.c06 import in_domain, no_fallback_universe, has_set
 
-NEEDED = ["Deser/Model.v", "Deser/Spec.v", "Ser/Model.v", "Ser/Spec.v", "Ser/RoundTrip.v", "Ser/RoundTripProofs.v"]
+NEEDED = ["Deser/Model.v", "Deser/Spec.v", "Ser/Model.v", "Ser/Spec.v", "Ser/RoundTrip.v", "Ser/RoundTripProofs.v", "Ser/RoundTripInd.v"]
 HEADER_EXTRA = "From AV Require Import Ser.RoundTrip.\n"
 
 
@@ -268,6 +268,12 @@ def run(tier):
                     meta[i], no_input=True)
     R.hist["model_round_trips"] = len(items)
     R.hist["model_mismatches"] = len(bad)
+    # how many of the generated cases lie within the hypotheses of the proved theorem (C05_round_trip_checked)
+    outside, errs = core.run_coq_shards("C05_hyps", P.header() + HEADER_EXTRA + "From AV Require Import Ser.RoundTripInd.\n", items,
+                                        "(fun c : " + T1 + " => let '(u, o, t, v) := c in rt_hyps u o 40 t v)", item_type=T1, shard=250)
+    for k, e in errs:
+        R.broken.append(f"coq evaluation failed (C05_hyps shard {k}): {e[-300:]}")
+    R.hist["cases_within_the_proved_theorem"] = len(items) - len(outside)
     return R.finish(
         rule="bijective universes (dataclass / NamedTuple / TypedDict, aliases, defaults, skip(serialization_default), "
              "none_as_undefined, Undefined fields, ordering, fields_set) x types of depth <= 3 x canonical well-typed values "
